@@ -788,8 +788,69 @@ def extension_mask_stream(ctx, res):
             if leaked:
                 res.violate("C10:leak-in-tree", "the sensitive value of a configuration object that is falsy (its class defines __bool__ / __len__) appears under a mask", dict(case, leaked=leaked))
 
+def tuple_of_configurations_stream(ctx, res):
+    """Configurations held in a TUPLE by an untyped position — `AnyField = (cfg,)`, `[(cfg,)]`, `{'k': (cfg,)}`, a dynamic key —
+    rendered with a mask: the sensitive values of those configurations are masked like everywhere else (F77: the walk stopped at
+    a tuple the field handed back as it is, the tree kept the objects and the YAML / pickle writers wrote them whole, secrets in
+    clear), the tuple stays a tuple, and no document of any format that can be written contains the secret"""
+    import cincoconfig as cc
+    acct = cc.Schema()
+    acct.user = cc.StringField(default="bob")
+    acct.password = cc.StringField(sensitive=True, default="TUPLE-SECRET-0042")
+    Acct = cc.make_type(acct, "C10TupleAcct")
+    for typed in (False, True):
+        mk = (lambda **kw: Acct(**kw)) if typed else (lambda **kw: acct(**kw))
+        for label, build in (("AnyField = (cfg,)", lambda: (mk(),)), ("AnyField = (cfg, cfg)", lambda: (mk(), mk(user="al"))), ("AnyField = [(cfg,)]", lambda: [(mk(),)]),
+                             ("AnyField = {'k': (cfg,)}", lambda: {"k": (mk(),)}), ("AnyField = ((cfg,), [cfg])", lambda: ((mk(),), [mk()]))):
+            for where in ("field", "untyped list", "dynamic key"):
+                s = cc.Schema(dynamic=(where == "dynamic key"))
+                s.name = cc.StringField(default="svc")
+                s.accounts = cc.AnyField()
+                s.rows = cc.ListField(default=lambda: [])
+                cfg = s()
+                if where == "field":
+                    cfg.accounts = build()
+                elif where == "untyped list":
+                    cfg.rows = [build()]
+                else:
+                    cfg.extra = build()
+                for mask in ("", "*", "<hidden>"):
+                    case = {"stream": "tuple-of-configurations", "config_type": typed, "shape": label, "where": where, "mask": mask}
+                    res.case(stable(case), kind="tuple-of-configurations")
+                    try:
+                        tree = cfg.to_tree(sensitive_mask=mask)
+                    except Exception as e:  # noqa
+                        res.violate("C10:leak-in-tree", "rendering a tuple of configurations with a mask raised %s" % type(e).__name__, dict(case, error=str(e)[:80]))
+                        continue
+
+                    def walk(node, found):
+                        if isinstance(node, cc.Config):
+                            found.append("object")
+                        elif isinstance(node, dict):
+                            for v in node.values():
+                                walk(v, found)
+                        elif isinstance(node, (list, tuple)):
+                            for v in node:
+                                walk(v, found)
+                        elif node == "TUPLE-SECRET-0042":
+                            found.append("secret")
+                    found = []
+                    walk(tree, found)
+                    if found:
+                        res.violate("C10:leak-in-tree", "under a mask the tree still holds a configuration object / the sensitive value of a configuration kept in a tuple by an "
+                                    "untyped field", dict(case, found=sorted(set(found))))
+                    for fmt in ("yaml", "pickle", "json", "bson", "xml"):
+                        try:
+                            doc = cfg.dumps(format=fmt, sensitive_mask=mask)
+                        except Exception:  # noqa
+                            continue            # a format that cannot carry a tuple writes no document
+                        if b"TUPLE-SECRET-0042" in doc:
+                            res.violate("C10:leak-in-document", "a document written with a mask contains the sensitive value of a configuration kept in a tuple by an untyped field",
+                                        dict(case, fmt=fmt))
+
 def run(ctx, n_quick=150, n_thorough=5000):
     res = Result()
+    guard(res, "C10", tuple_of_configurations_stream, ctx, res)
     guard(res, "C10", extension_mask_stream, ctx, res)
     guard(res, "C10", lambda: P.run_stream(ctx, res, "C10", ctx.n(n_quick, n_thorough), oracle, gen_ops=gen_ops, ops_len=(3, 8), schema_gen=gen_schema))
     guard(res, "C10", marker_stream, ctx, res, ctx.n(8, 200))
